@@ -76,7 +76,7 @@ func c20Gen(c *Ctx) (cs c20Case, cell string) {
 	}
 	r := c.R
 	mode := int(k % 6)
-	alpha := []string{"a", "b", "c", "d", "e", "x", "é", "-", "1", "λ"}
+	alpha := []string{"a", "b", "c", "d", "e", "x", "é", "è", "ê", "-", "1", "λ", "μ"}
 	mk := func(lo, hi int) string {
 		n := r.Range(lo, hi)
 		s := ""
